@@ -150,13 +150,14 @@ def build_events(sc, reuse_evs=None, reuse_queue=None, later=None, cuts=()):
 
 
 def build_start(sim):
-    y, mo, d, h, mi = sim["start"]
+    y, mo, d, h, mi = sim["start"][:5]
+    sec, us = (list(sim["start"][5:]) + [0, 0])[:2]
     tz = sim.get("start_tz")
     if tz:
         # an aware start instant, the way the library's tutorials build it: pytz zone .localize(naive wall time)
         import pytz
-        return pytz.timezone(tz).localize(datetime(y, mo, d, h, mi))
-    return datetime(y, mo, d, h, mi)
+        return pytz.timezone(tz).localize(datetime(y, mo, d, h, mi, sec, us))
+    return datetime(y, mo, d, h, mi, sec, us)
 
 
 def build_signals(sim):
